@@ -128,6 +128,16 @@ def check_targets(step):
                 bad("target:Scalar", f"exception:{X.exc_label(e)}", {"message": str(e)[:200]})
             ex.stats["target_comparisons"] += 2
             if b != "polars":
+                # the lazy target of a SQL table is a LazyFrame with the same content
+                try:
+                    lz = tbl >> pdt.export(pdt.Polars(lazy=True))
+                    if not isinstance(lz, pl.LazyFrame):
+                        bad("target:Polars(lazy)", "not-lazy", {"type": type(lz).__name__})
+                    elif C.diff_frames(names, rows, list(lz.collect().columns), C.frame_rows(lz.collect()), ordered=ordered):
+                        bad("target:Polars(lazy)", "differs", {})
+                    ex.stats["target_comparisons"] += 1
+                except Exception as e:  # noqa: BLE001
+                    bad("target:Polars(lazy)", f"exception:{X.exc_label(e)}", {"message": str(e)[:200]})
                 continue
             # lazy, pandas, re-import (polars backend)
             try:
